@@ -6,9 +6,13 @@ import (
 	"fmt"
 	"time"
 
+	"github.com/ethereum/go-ethereum/common"
+	abcitypes "github.com/tendermint/tendermint/abci/types"
+
 	"github.com/shutter-network/shutter/shlib/puredkg"
 	"github.com/shutter-network/shutter/shlib/shcrypto"
 
+	"github.com/shutter-network/rolling-shutter/rolling-shutter/keyper/shutterevents"
 	"github.com/shutter-network/rolling-shutter/rolling-shutter/shdb"
 
 	"verif/sim/simkit"
@@ -21,7 +25,7 @@ func init() {
 		Assumptions: []string{"Tendermint consensus is a stub: one application instance, blocks are final", "the harness plays the chain observer (keyper_set table) and the execution chain head"},
 		Real:        []string{"keyper.KeyperCore.operateShuttermint (smobserver.SyncAppWithDB, ShuttermintState, handleOnChainChanges, fx.SendShutterMessages)", "app.ShutterApp", "shlib puredkg / shcrypto", "keyper/database sqlc, pgx", "ethclient"},
 		Stub:        []string{"Tendermint consensus / mempool / RPC (simtm)", "execution node (simeth)", "PostgreSQL (pgsim)", "libp2p (simnet)"},
-		QuickRuns:   64, ThoroughRuns: 6000, QuickMinimize: 20, ThoroughMinimize: 100,
+		QuickRuns:   400, ThoroughRuns: 40000, QuickMinimize: 30, ThoroughMinimize: 150,
 	})
 }
 
@@ -99,10 +103,43 @@ func runC07(r *simkit.Run) {
 	L := int64(c.Range(4, 8, "phase-length"))
 	w := newWorldB(r, n, t, L)
 	defer w.close()
-	nbyz := 0 // Byzantine keypers are added by the scenario extensions below
+	nbyz := 0
+	if n-t > 0 && c.Chance(700, "with-byzantine") {
+		nbyz = c.Range(1, n-t, "n-byzantine")
+	}
 	var honest []*bNode
+	var victims []int
 	for i := 0; i < n-nbyz; i++ {
 		honest = append(honest, w.addNode(i))
+		victims = append(victims, i)
+	}
+	var byz []*byzKeyper
+	for i := n - nbyz; i < n; i++ {
+		b := newByzKeyper(w, i, c, victims)
+		byz = append(byz, b)
+		r.Eventf("%s", b.describe())
+	}
+	step := func() {
+		// the shuttermint node cuts a block; which pending transactions and in which order is a
+		// scheduler choice (mostly everything)
+		var pick []int
+		m := w.tm.MempoolSize()
+		if m > 0 {
+			perm := c.Perm(m, "block-order")
+			for _, i := range perm {
+				if !c.Chance(60, "tx-delayed") {
+					pick = append(pick, i)
+				}
+			}
+		}
+		if pick == nil {
+			pick = []int{}
+		}
+		w.produceBlock(pick)
+		for _, b := range byz {
+			b.onBlocks()
+		}
+		w.settle(time.Second)
 	}
 	r.Eventf("n=%d t=%d L=%d byzantine=%d", n, t, L, nbyz)
 	r.Sample["config"] = fmt.Sprintf("n=%d t=%d L=%d byzantine=%d", n, t, L, nbyz)
@@ -112,8 +149,7 @@ func runC07(r *simkit.Run) {
 	}
 	// boot: first blocks, keypers see the genesis config and check in
 	for i := 0; i < 4; i++ {
-		w.produceBlock(nil)
-		w.settle(time.Second)
+		step()
 	}
 	// the chain observer reports keyper set 1
 	activation := int64(w.ethHead.Number) + 4
@@ -124,8 +160,7 @@ func runC07(r *simkit.Run) {
 	eon := int64(1)
 	done := false
 	for blk := 0; blk < int(8*L)+40 && !done; blk++ {
-		w.produceBlock(nil)
-		w.settle(time.Second)
+		step()
 		if blk%3 == 0 {
 			w.advanceEth(1)
 		}
@@ -147,15 +182,97 @@ func runC07(r *simkit.Run) {
 	}
 	// let the reports and the eon key hand-over drain
 	for i := 0; i < 4; i++ {
-		w.produceBlock(nil)
-		w.settle(time.Second)
+		step()
 	}
 	succ := checkDKGAgreement(r, w, eon, honest)
 	r.Eventf("eon %d: %d/%d honest keypers report success", eon, succ, len(honest))
-	if nbyz == 0 && succ != len(honest) {
-		r.Fail("honest-dkg-failed", "success", "all keypers are honest and no fault was injected but only %d of %d report success", succ, len(honest))
+	inPhase, nAcc, nApo := dkgMessagesInPhase(w, eon, honest)
+	if inPhase {
+		r.Probe("honest-messages-in-phase")
+	}
+	if nbyz == 0 && inPhase && succ != len(honest) {
+		r.Fail("honest-dkg-failed", "success", "all keypers are honest, every DKG message landed inside its phase and no fault was injected, but only %d of %d report success", succ, len(honest))
+	}
+	if nbyz > 0 {
+		r.Probe("runs-with-byzantine")
+	}
+	if succ > 0 {
+		r.Probe("some-success")
 	}
 	r.Probe("dkg-completed")
-	r.Nontrivial = true
+	r.Nontrivial = nAcc > 0 && nApo > 0
+	if nAcc > 0 {
+		r.Probe("accusations-on-chain")
+	}
+	if nApo > 0 {
+		r.Probe("apologies-on-chain")
+	}
 	r.Sample["shuttermint_blocks"] = w.tmc.Height
+}
+
+// dkgMessagesInPhase inspects the chain: did every DKG message of the honest keypers land
+// inside its phase (commitments and evaluations while dealing, accusations while accusing,
+// apologies while apologizing)? Also counts accusations / apologies on chain.
+func dkgMessagesInPhase(w *worldB, eon int64, honest []*bNode) (inPhase bool, nAccusations, nApologies int) {
+	isHonest := map[common.Address]bool{}
+	for _, nd := range honest {
+		isHonest[nd.key.Addr] = true
+	}
+	start := int64(0)
+	inPhase = true
+	commitments, evals := map[common.Address]bool{}, map[common.Address]bool{}
+	for _, blk := range w.tmc.Blocks {
+		var evs []abcitypes.Event
+		evs = append(evs, blk.Begin.Events...)
+		for _, d := range blk.Deliver {
+			evs = append(evs, d.Events...)
+		}
+		evs = append(evs, blk.End.Events...)
+		for _, raw := range evs {
+			ev, err := shutterevents.MakeEvent(raw, blk.Height)
+			if err != nil {
+				continue
+			}
+			switch e := ev.(type) {
+			case *shutterevents.EonStarted:
+				if int64(e.Eon) == eon {
+					start = e.Height
+				}
+			case *shutterevents.PolyCommitment:
+				if int64(e.Eon) == eon && isHonest[e.Sender] {
+					commitments[e.Sender] = true
+					if !(blk.Height >= start && blk.Height < start+w.L) {
+						inPhase = false
+					}
+				}
+			case *shutterevents.PolyEval:
+				if int64(e.Eon) == eon && isHonest[e.Sender] {
+					evals[e.Sender] = true
+					if !(blk.Height >= start && blk.Height < start+w.L) {
+						inPhase = false
+					}
+				}
+			case *shutterevents.Accusation:
+				if int64(e.Eon) == eon {
+					nAccusations++
+					if isHonest[e.Sender] && !(blk.Height >= start+w.L && blk.Height < start+2*w.L) {
+						inPhase = false
+					}
+				}
+			case *shutterevents.Apology:
+				if int64(e.Eon) == eon {
+					nApologies++
+					if isHonest[e.Sender] && !(blk.Height >= start+2*w.L && blk.Height < start+3*w.L) {
+						inPhase = false
+					}
+				}
+			}
+		}
+	}
+	for _, nd := range honest {
+		if !commitments[nd.key.Addr] || (len(honest) > 1 && !evals[nd.key.Addr]) {
+			inPhase = false
+		}
+	}
+	return
 }
